@@ -1321,7 +1321,11 @@ def _element_ref(e, mutated) -> bool:
             return False
         e = e.value
         n += 1
-    return n >= 1 and isinstance(e, ast.Name) and e.id not in mutated
+    if n >= 1 and isinstance(e, ast.Name):
+        return e.id not in mutated
+    # ... or of a container held in an attribute of self (self.samples[k]) that the function does not write itself
+    p = path_of(e)
+    return n >= 1 and p is not None and p.startswith("self.") and p.count(".") == 1 and p not in mutated
 
 
 def _in_closure(node, root) -> bool:
